@@ -107,9 +107,17 @@ fn run_entry(s: &Shape, inp: &Inputs, dl: Option<std::time::Instant>) -> Obs {
                 let mut c = similar::TextDiff::configure();
                 c.algorithm(s.alg);
                 if let Some(d) = dl {
+                    // the setter called last wins; the other one is called first with a different value
+                    let other = std::time::Duration::from_secs(7200);
                     if s.entry == Entry::TextConfigDeadline {
+                        if (s.n + s.m) % 2 == 1 {
+                            c.timeout(other);
+                        }
                         c.deadline(d);
                     } else {
+                        if (s.n + s.m) % 2 == 1 {
+                            c.deadline(d + other);
+                        }
                         c.timeout(std::time::Duration::from_secs(3600));
                     }
                 }
@@ -140,19 +148,43 @@ impl C07 {
         let nt: Vec<&SymTxt> = (0..m).map(|i| SymTxt::new(&new[i..i + 1])).collect();
         let probes = std::rc::Rc::new(std::cell::Cell::new(0u32));
         let p2 = probes.clone();
-        similar::verif_clock::install(Some(Box::new(move || {
+        let seen = std::rc::Rc::new(std::cell::RefCell::new(Vec::<std::time::Instant>::new()));
+        let s2 = seen.clone();
+        similar::verif_clock::install(Some(Box::new(move |dl| {
             p2.set(p2.get() + 1);
+            s2.borrow_mut().push(dl);
             true
         })));
         let mut c = similar::TextDiff::configure();
         c.algorithm(s.alg);
-        if s.m % 2 == 0 {
-            c.deadline(std::time::Instant::now());
-        } else {
-            c.timeout(std::time::Duration::from_secs(3600));
+        let d0 = std::time::Instant::now() + std::time::Duration::from_secs(12345);
+        let hour = std::time::Duration::from_secs(3600);
+        let t_before = std::time::Instant::now();
+        // the setter called last wins: m%4 = 0: deadline; 1: timeout; 2: timeout then deadline; 3: deadline then timeout
+        match s.m % 4 {
+            0 => {
+                c.deadline(d0);
+            }
+            1 => {
+                c.timeout(hour);
+            }
+            2 => {
+                c.timeout(hour).deadline(d0);
+            }
+            _ => {
+                c.deadline(d0).timeout(hour);
+            }
         }
         let c0 = engine::run_cmps();
         let diff = c.diff_slices(&ot, &nt);
+        let t_after = std::time::Instant::now();
+        for dl in seen.borrow().iter() {
+            if s.m % 2 == 0 {
+                claim!(*dl == d0, "the deadline that reached the algorithm is not the one configured last on the builder");
+            } else {
+                claim!(*dl >= t_before + hour && *dl <= t_after + hour, "the timeout configured last on the builder did not reach the algorithm as now + timeout");
+            }
+        }
         let cmps = engine::run_cmps() - c0;
         similar::verif_clock::install(None);
         let ops = diff.ops().to_vec();
@@ -215,9 +247,23 @@ impl Prop for C07 {
         }
         let inp = make_inputs(s.n, s.m, s.layout);
         let clock = install_clock();
-        let obs = run_entry(s, &inp, any_instant());
+        let d0 = std::time::Instant::now() + std::time::Duration::from_secs(4242);
+        let t_before = std::time::Instant::now();
+        let obs = run_entry(s, &inp, Some(d0));
+        let t_after = std::time::Instant::now();
         let cmps_total = engine::run_cmps();
         similar::verif_clock::install(None);
+        if s.entry == Entry::TextConfigTimeout {
+            let hour = std::time::Duration::from_secs(3600);
+            for dl in clock.deadlines_seen.borrow().iter() {
+                claim!(
+                    *dl >= t_before + hour && *dl <= t_after + hour,
+                    "TextDiffConfig::timeout: the deadline that reached the algorithm is not now + the timeout configured last"
+                );
+            }
+        } else {
+            claim_only_deadline(&clock, d0, s.entry.name());
+        }
         let fired = clock.fired_at.get();
         let probes = clock.probes.get();
         let text = match &obs {
